@@ -227,6 +227,11 @@ def run(ctx):
     status_rules(ctx)
     # reviewed reference of the selector / timeout predicates (engine/census.py)
     from rules import census_fns
+    # (F64) a last state carried by a proof response is an update only if it differs from the peer's current one
+    census_fns.requires(ctx, 'C11.r8', 'LightClientProtocol::process_last_state', r'^call Peers::update_last_state', r'LastState::is_same_as',
+                        'process_last_state does not treat the unchanged last state as an update (timestamp kept, GetLastState not answered)',
+                        'peer proves 18, then SendLastState(17); every GetBlocksProof{last_hash=#18} is answered with last_header=#17 only: the "unchanged last state" timer is '
+                        'reset each time, the peer is never disconnected and the header is never fetched')
     census_fns.run(ctx, 'C11')
 
 
